@@ -13,6 +13,7 @@ GenASM4xx == {"404"}
 GenASMHttpFail == {"500"}
 GenASMFlagDocs == {"good"}
 GenASMDocs == {"good", "iss_other", "iss_port", "no_pkce", "tok_http"}
+GenASMRest == {"404", "good"}
 GenRegConfigs == {"pre", "dcr", "cimd_pre"}
 GenPreRels == {"unset", "exact", "other", "port"}
 GenDCROutcomes == {"201", "400"}
@@ -22,5 +23,10 @@ GenTokenOutcomes == {"good", "400"}
 
 \* The ghost variables are never read by an action, so states that differ only in them have the
 \* same labelled successors: the cover/generation graphs are dumped modulo the ghosts.
-CoverView == <<pc, ch, mcp, plist, idx, srv, asm, client, pre, ares, tokq, result, ts>>
+\* (`cause` is kept: the behaviours "fatal outcome X at location i, then outcomes Y at the later locations" are then
+\* distinct edges of the graph for every X, i and Y, and the edge cover replays each of them)
+CoverView == <<pc, ch, mcp, plist, idx, srv, asm, client, pre, ares, tokq, result, ts, cause>>
+
+\* witness configuration (OAuthFlow_wit.cfg): discovery that goes on after a fatal outcome
+WitASMFatalStops == FALSE
 =============================================================================
